@@ -529,7 +529,7 @@ class Tr:
                     fail(self.where(s), f"the loop changes the type of {n}")
             self.env, self.fresh = env0, fresh0
             return self.wrap(pre, f"match for_range {n_it} (fun {var} {pat} =>\n{inner}) {tup} with None => None "
-                                  f"| Some {pat} =>\n" + self.block(rest, end) + " end")
+                                  f"| Some {tup} =>\n" + self.block(rest, end) + " end")
         fail(self.where(s), f"statement shape not supported: {ast.unparse(s).splitlines()[0]}")
 
 
